@@ -861,3 +861,85 @@ Qed.
 
 Lemma load_closed : forall ts, closed (fst (load ts [])) = true.
 Proof. intro ts. apply load_closed_gen. reflexivity. Qed.
+
+(* ================================================================ F. the repaired machine:
+   when injection deep-copies (context.update(copy.deepcopy(in))), EVERY operation list is
+   disciplined with the empty taint set — no key is ever bound to a definition object *)
+Lemma merge_taint_nil : forall kv, merge_taint [] kv = Some [].
+Proof.
+  intros [k v]. unfold merge_taint. cbn [fst snd]. destruct v as [z|m k'|l|d].
+  - reflexivity.
+  - destruct m; reflexivity.
+  - cbn [tainted existsb orb]. rewrite (byref_nil (TList l)). reflexivity.
+  - cbn [tainted existsb orb]. rewrite (byref_nil (TDict d)). reflexivity.
+Qed.
+
+Lemma defaults_taint_nil : forall kv, defaults_taint [] kv = Some [].
+Proof.
+  intros [k v]. unfold defaults_taint. cbn [fst snd tainted existsb]. destruct v as [z|m k'|l|d].
+  - reflexivity.
+  - destruct m; reflexivity.
+  - rewrite (byref_nil (TList l)). reflexivity.
+  - rewrite (byref_nil (TDict d)). reflexivity.
+Qed.
+
+Lemma fold_taint_nil : forall A (f : list string -> A -> option (list string)) l,
+  (forall x, f [] x = Some []) -> fold_taint f [] l = Some [].
+Proof. intros A f l H. induction l as [|x r IH]; cbn; [reflexivity|]. rewrite H. exact IH. Qed.
+
+Lemma check_op_nil : forall o,
+  match o with InjectIn _ _ => False | _ => True end -> check_op [] o = Some [].
+Proof.
+  intros o H. destruct o as [k c|k|k t|k k'|k t|m k t|k z|k s z|ps|ps|k k' n|k z|]; cbn [check_op];
+    try contradiction; try reflexivity.
+  - destruct t as [z|m k'|l|d]; cbn [bind_taint].
+    + reflexivity.
+    + destruct m; reflexivity.
+    + rewrite (byref_nil (TList l)). reflexivity.
+    + rewrite (byref_nil (TDict d)). reflexivity.
+  - cbn [tainted existsb orb]. rewrite (byref_nil t). reflexivity.
+  - cbn [tainted existsb orb]. rewrite (byref_nil t). reflexivity.
+  - apply fold_taint_nil. exact merge_taint_nil.
+  - apply fold_taint_nil. exact defaults_taint_nil.
+Qed.
+
+Lemma step_fixed_ok : forall o dh p dh' p',
+  step_fixed dh p o = (dh', p') -> pinv [] p -> dh' = dh /\ pinv [] p'.
+Proof.
+  intros o dh p dh' p' E Hp.
+  assert (Hother : match o with InjectIn _ _ => False | _ => True end ->
+                   step dh p o = (dh', p') -> dh' = dh /\ pinv [] p').
+  { intros Ho Es. exact (step_ok [] [] o dh p dh' p' (check_op_nil o Ho) Es Hp). }
+  destruct o as [k c|k|k t|k k'|k t|m k t|k z|k s z|ps|ps|k k' n|k z|]; try (apply Hother; [exact I|exact E]).
+  cbn [step_fixed] in E. destruct (running p) eqn:R; cbn [negb] in E.
+  - destruct (Hp R) as [Hh Hx].
+    destruct (copy FUEL dh (ph p) [] c) as [[[h m] c']|] eqn:Ec; inversion E; subst.
+    + destruct (copy_ok _ _ _ _ _ _ _ _ Ec Hh (Forall_nil _)) as [A [_ C]].
+      split; [reflexivity|]. intros _. cbn. split; [assumption|apply ctxfree_set; assumption].
+    + split; [reflexivity|]. intro R'. discriminate.
+  - inversion E; subst. split; [reflexivity|assumption].
+Qed.
+
+Lemma fixed_read_only : forall ops dh p, pinv [] p -> read_only step_fixed dh p ops.
+Proof.
+  induction ops as [|o r IH]; intros dh p Hp; cbn; [exact I|].
+  destruct (step_fixed dh p o) as [dh1 p1] eqn:Es. destruct (step_fixed_ok _ _ _ _ _ Es Hp) as [A B].
+  cbn. split; [assumption|]. apply IH. assumption.
+Qed.
+
+Lemma fixed_run_unchanged : forall dh r, closed dh = true -> fst (run1_with step_fixed dh r) = dh.
+Proof.
+  intros dh r Hc. unfold run1_with.
+  pose proof (read_only_exec step_fixed (r_ops r) dh (start r) (fixed_read_only _ _ _ (start_ok r))) as H.
+  destruct (exec step_fixed dh (start r) (r_ops r)) as [dh1 p1]. cbn in *. subst dh1.
+  apply finish_closed. assumption.
+Qed.
+
+Lemma fixed_interleaving : forall dh (sch : list (nat * op)) (inits : nat -> list (string * tree)),
+  let ps := fun t => init_ctx (inits t) empty_priv in
+  fst (sched_run step_fixed dh ps sch) = dh /\
+  forall t, snd (sched_run step_fixed dh ps sch) t = snd (exec step_fixed dh (ps t) (proj t sch)).
+Proof.
+  intros dh sch inits ps. apply interleaving. intro t. apply fixed_read_only.
+  exact (start_ok (mkrun (inits t) [])).
+Qed.
